@@ -652,19 +652,31 @@ impl VariableSet {
     /// - `PPID`
     /// - `PWD`
     ///
+    /// `PS1`, `PS2` and `PS4` are assigned only if they do not have a value
+    /// yet, so that values inherited from the environment are retained.
+    ///
     /// This function ignores any assignment errors.
     pub fn init(&mut self) {
         const VARIABLES: &[(&str, &str)] = &[
             (IFS, IFS_INITIAL_VALUE),
             (OPTIND, OPTIND_INITIAL_VALUE),
-            (PS1, PS1_INITIAL_VALUE_NON_ROOT),
-            (PS2, PS2_INITIAL_VALUE),
-            (PS4, PS4_INITIAL_VALUE),
         ];
         for &(name, value) in VARIABLES {
             self.get_or_new(name, Scope::Global)
                 .assign(value, None)
                 .ok();
+        }
+
+        const DEFAULTS: &[(&str, &str)] = &[
+            (PS1, PS1_INITIAL_VALUE_NON_ROOT),
+            (PS2, PS2_INITIAL_VALUE),
+            (PS4, PS4_INITIAL_VALUE),
+        ];
+        for &(name, value) in DEFAULTS {
+            let mut var = self.get_or_new(name, Scope::Global);
+            if var.value.is_none() {
+                var.assign(value, None).ok();
+            }
         }
 
         self.get_or_new(LINENO, Scope::Global)
